@@ -6,6 +6,7 @@
 import SifVerif.Model.Image
 import SifVerif.Model.Extra
 import SifVerif.Model.Check
+import SifVerif.Model.Spec
 import SifVerif.Model.Integrity
 import SifVerif.Model.Siftool
 import Driver.SHA2
@@ -579,6 +580,12 @@ partial def loop (inp : IO.FS.Stream) (out : IO.FS.Stream) (st : DState) : IO Un
         | some img =>
           let (img', r) := step sha ph img op now
           out.putStrLn s!"res {resStr r}"
+          -- C02: the concrete step is the reference model's step on the abstract view (checked
+          -- whenever the pre-state meets the refinement theorem's hypotheses)
+          if cmd != "reload" then
+            if wfOK img && placedOK img && rangesOK img && !refinesStep sha ph img op now then
+              out.putStrLn "spec FAIL: abs (step s op) differs from AImg.step (abs s) op"
+            else out.putStrLn "spec ok"
           if kv.get "io" == "1" then
             for l in ioLines (plan sha ph img op now).1 do out.putStrLn l
           loop inp out { st with img := some img' }
